@@ -195,6 +195,20 @@ def with_command_actions(cfg: Dict, rng: Rng, per_host: int = 3) -> Dict:
         for cmd in (["file_system", "create", "file", "downloads", f"c04r_{rng.below(1000)}.txt", "False"],
                     ["service", "user-session-manager", "remote_logout", "no-such-session"]):
             new.append({"action": "node-send-remote-command", "options": {"node_name": h["hostname"], "remote_ip": str(other["ip_address"]), "command": cmd}})
+    # nmap: a scan of SEVERAL networks, then a scan of the first one alone (target lists starting with a network and continuing with another
+    # network / a single address): what a scan of a network finds must not depend on which lists were scanned before
+    import ipaddress
+    nets = []
+    for h in hosts:
+        n = str(ipaddress.ip_network(f"{h['ip_address']}/29", strict=False))
+        if n not in nets:
+            nets.append(n)
+    for h in rng.shuffle(list(hosts))[:3]:
+        own = str(ipaddress.ip_network(f"{h['ip_address']}/29", strict=False))
+        others = [n for n in nets if n != own]
+        second = rng.choice(others) if others else str(rng.choice(hosts)["ip_address"])
+        for tgt in ([own, second], own, [second, own], second):
+            new.append({"action": "node-nmap-ping-scan", "options": {"source_node": h["hostname"], "target_ip_address": tgt, "show": False}})
     k = max(amap) + 1 if amap else 0
     for i, a in enumerate(new):
         amap[k + i] = a
@@ -231,7 +245,49 @@ def _aug_air(cfg: Dict, rng: Rng, n: int) -> Dict:
 
 
 # ---------------------------------------------------------------------------------------------- import-only globals at run time
+MEMO_SUFFIX = ".<memo cache>"
+
+
+def memo_wrappers() -> Dict[str, Any]:
+    """every functools.lru_cache / cache wrapper bound at module or class level of the loaded package: `module.name` -> wrapper"""
+    import sys
+    out = {}
+    for mname, mod in list(sys.modules.items()):
+        if not mname.startswith("primaite") or mod is None:
+            continue
+        for k, v in list(vars(mod).items()):
+            if callable(v) and hasattr(v, "cache_clear") and hasattr(v, "cache_info"):
+                out[f"{mname}.{k}"] = v
+            if isinstance(v, type) and getattr(v, "__module__", "") == mname:
+                for ck, cv in list(vars(v).items()):
+                    f = getattr(cv, "__func__", cv)
+                    if callable(f) and hasattr(f, "cache_clear") and hasattr(f, "cache_info"):
+                        out[f"{mname}.{k}.{ck}"] = f
+    return out
+
+
+def memo_contents(w: Any) -> List[Tuple[str, str]]:
+    """(key, value) texts of what an lru_cache wrapper holds (its links `[prev, next, key, result]` are visible to the collector)"""
+    import gc
+    out = []
+    for x in gc.get_referents(w):
+        if isinstance(x, list) and len(x) == 4 and isinstance(x[0], list) and isinstance(x[1], list) and x[2] is not None:
+            out.append((repr(x[2])[:200], repr(x[3])[:2000]))
+    return sorted(out)
+
+
+def clear_memo_caches() -> None:
+    """Hook of `normalise_process_state`: a new interpreter has empty memoisation caches"""
+    for w in memo_wrappers().values():
+        try:
+            w.cache_clear()
+        except Exception:
+            pass
+
+
 def _resolve(name: str):
+    if name.endswith(MEMO_SUFFIX):
+        return _resolve(name[: -len(MEMO_SUFFIX)])
     mod, _, path = name.partition(":")
     m = importlib.import_module("primaite" if mod == "primaite" else "primaite." + mod)
     o = m
@@ -241,6 +297,8 @@ def _resolve(name: str):
 
 
 def _finger(o: Any) -> str:
+    if callable(o) and hasattr(o, "cache_info") and hasattr(o, "cache_clear"):
+        return "memo:" + repr(memo_contents(o))
     if isinstance(o, dict):
         return "dict:" + ";".join(f"{k!r}->{_finger1(v)}" for k, v in o.items())
     if isinstance(o, (list, tuple, set)):
@@ -359,6 +417,7 @@ def _prepare_replay():
     if not _SNAP:
         snapshot_import_only_objects(x_ss.build())
         iso.NORMALISE_HOOKS.append(restore_import_only)
+        iso.NORMALISE_HOOKS.append(clear_memo_caches)
     if not _READ_GLOBALS:
         _READ_GLOBALS = read_globals(x_ss.build())
     iso.pin_opaque_widths()
@@ -620,6 +679,8 @@ def run(ctx: Ctx):
     snapshot_import_only_objects(inv)
     if restore_import_only not in iso.NORMALISE_HOOKS:
         iso.NORMALISE_HOOKS.append(restore_import_only)
+        iso.NORMALISE_HOOKS.append(clear_memo_caches)
+    ctx.cov["memo_wrappers_loaded"] = sorted(memo_wrappers())
     iso.pin_opaque_widths()
     run_tmp = tempfile.mkdtemp(prefix="c04run_")
     _TMP.append(run_tmp)
@@ -763,8 +824,16 @@ def _do_dirty(ctx: Rec, unit: dict):
             cfg0 = {}
     fam = iso.seed_family(iso.configured_seed(cfg0), rng.fork("family"))
     seeds = [fam[i] for i in unit["pick"]]
+    # probe pairs of the generated map: scans of a LIST of targets (end of every dirty episode) / of a single target (end of every compared one)
+    extra_h, extra_l = [], []
+    if isinstance(cfg, dict):
+        amap = (envrig.proxy_agent_cfg(cfg) or {}).get("action_space", {}).get("action_map", {})
+        scans = [(k, v) for k, v in sorted(amap.items()) if v.get("action") == "node-nmap-ping-scan"]
+        extra_h = [k for k, v in scans if isinstance(v["options"].get("target_ip_address"), list)][:3]
+        extra_l = [k for k, v in scans if isinstance(v["options"].get("target_ip_address"), str)][:4]
+        ctx.count("dirty:probe-pairs(scan of several networks in the history, of one alone later)", min(len(extra_h), len(extra_l)))
     try:
-        r = iso.dirty_history(cfg, rng, n_dirty, n_later, episodes, seeds, make=maker)
+        r = iso.dirty_history(cfg, rng, n_dirty, n_later, episodes, seeds, make=maker, extra_history=extra_h, extra_later=extra_l)
     except Exception as e:
         ctx.notes.append(f"dirty-history {label}: not runnable: {type(e).__name__}: {str(e)[:120]}")
         ctx.count("dirty:not-runnable")
